@@ -120,9 +120,21 @@ func (h *history) callContains(ip []byte) (code int) {
 	return 0
 }
 
+func (h *history) notePanic(where, tok string, code int) {
+	if code == 2 && !h.flags["calls_that_panicked_or_failed_oddly"] {
+		h.flags["calls_that_panicked_or_failed_oddly"] = true
+		if h.e.Stats["panic_viol_lines"] == nil || h.e.Stats["panic_viol_lines"].(int) < 3 {
+			h.e.Count("panic_viol_lines", 1)
+			h.e.Case("VIOL", "panic-in-"+where, fmt.Sprintf("seed=%d", h.e.Seed), fmt.Sprintf("after_ops=%d", h.nOps),
+				fmt.Sprintf("list_slots_used=%d", h.validAdds), "call="+tok+"2")
+		}
+	}
+}
+
 func (h *history) rawAdd(ip, mask []byte) int {
 	tok := fmt.Sprintf("A:%s:%s:", hk.Hx(ip), hk.Hx(mask))
 	c := h.callAdd(ip, mask)
+	h.notePanic("Add", tok, c)
 	h.scribbleOver(ip, mask)
 	h.toks = append(h.toks, tok+fmt.Sprint(c))
 	h.nOps++
@@ -132,6 +144,7 @@ func (h *history) rawAdd(ip, mask []byte) int {
 func (h *history) rawRemove(ip, mask []byte) int {
 	tok := fmt.Sprintf("R:%s:%s:", hk.Hx(ip), hk.Hx(mask))
 	c := h.callRemove(ip, mask)
+	h.notePanic("Remove", tok, c)
 	h.scribbleOver(ip, mask)
 	h.toks = append(h.toks, tok+fmt.Sprint(c))
 	h.nOps++
@@ -141,6 +154,7 @@ func (h *history) rawRemove(ip, mask []byte) int {
 func (h *history) probe(ip []byte) {
 	tok := fmt.Sprintf("C:%s:", hk.Hx(ip))
 	c := h.callContains(ip)
+	h.notePanic("Contains", tok, c)
 	h.scribbleOver(ip)
 	h.toks = append(h.toks, tok+fmt.Sprint(c))
 	h.nProbes++
@@ -1073,6 +1087,184 @@ func repeatedLookups(e *hk.Env) {
 	}
 }
 
+// ---- the list dominated by ONE prefix length at the switch ----
+//
+// exactly 255 / 256 / 257 list entries of the same prefix length (/32 hosts, /24 nets, /8, /1, or a random
+// length), with and without duplicates, optionally one of them removed or one entry of another length among
+// them; then the triggering Add (same or another length); then lookups of ALL earlier ranges.
+func samePrefixFill(e *hk.Env, r *hk.Rng, variant int) {
+	h := newHistory(e, r)
+	ones := []int{32, 24, 8, 1, 16, 1 + r.Intn(32)}[variant%6]
+	same := []int{256, 255, 257, 256, 256, 254}[(variant/6)%6] // how many entries of that length
+	dups := variant%2 == 1 || ones <= 8 // short prefixes do not have 257 distinct ranges
+	var rs []rangeT
+	seen := map[uint32]bool{}
+	fresh := func() rangeT {
+		for {
+			var ip [4]byte
+			binary.BigEndian.PutUint32(ip[:], uint32(r.U64()))
+			rg := rangeT{ip: ip, ones: ones}
+			if dups && len(rs) > 0 && r.Chance(40) {
+				return rs[r.Intn(len(rs))]
+			}
+			if seen[rg.first()] {
+				if ones <= 8 {
+					return rg // a duplicate: there are not enough distinct ranges of this length
+				}
+				continue
+			}
+			seen[rg.first()] = true
+			return rg
+		}
+	}
+	other := rangeT{ip: [4]byte{byte(r.Intn(256)), 3, 3, 3}, ones: 1 + (ones+3+r.Intn(20))%32}
+	extra := 0
+	switch (variant / 3) % 4 {
+	case 1: // one entry of another length among them
+		extra = 1 + r.Intn(250)
+	}
+	for len(rs) < same && h.validAdds < 256 {
+		if extra > 0 && len(rs) == extra {
+			h.add(other)
+			extra = -1
+		}
+		rg := fresh()
+		h.add(rg)
+		rs = append(rs, rg)
+	}
+	for h.validAdds < 256 { // fill the rest of the list with other lengths
+		h.add(rangeT{ip: [4]byte{172, 16, byte(h.validAdds), 1}, ones: 25 + r.Intn(7)})
+	}
+	if (variant/3)%4 == 2 { // one of them removed before the switch: 255 live, 256 slots
+		h.remove(rs[r.Intn(len(rs))])
+	}
+	h.probeRange(rs[0])
+	// the triggering Add
+	trig := fresh()
+	if variant%4 >= 2 {
+		trig = rangeT{ip: [4]byte{10, 20, 30, byte(r.Intn(256))}, ones: 1 + (ones+7)%32}
+	}
+	h.add(trig)
+	h.flags["same_prefix_length_switch_histories"] = true
+	// every earlier range
+	for _, rg := range rs {
+		h.probe(u32b(rg.first()))
+	}
+	h.probeRange(trig)
+	h.probeRange(other)
+	// life goes on in map mode
+	for i := 0; i < 6; i++ {
+		rg := fresh()
+		h.add(rg)
+		h.probe(u32b(rg.last()))
+		k := rs[r.Intn(len(rs))]
+		h.remove(k)
+		h.probe(u32b(k.first()))
+	}
+	h.emit("same_prefix_switch")
+}
+
+// ---- up - down - up: grow past the switch, shrink to (nearly) nothing, grow again with other ranges ----
+//
+// 2-3 cycles on one filter: more than 256 adds; removals down to 129 / 128 / 127 / a few / 0 left; further
+// removals of ranges of the earlier eras; more than 256 adds of OTHER ranges (passing 256 / 257 live again);
+// then lookups of everything ever removed and of what is still there.
+func upDownUp(e *hk.Env, r *hk.Rng) {
+	h := newHistory(e, r)
+	live := []rangeT{}
+	var removed []rangeT
+	seen := map[rangeT]bool{}
+	fresh := func() rangeT {
+		for {
+			rg := h.newRange(8)
+			h.known = h.known[:0]
+			k := rangeT{ones: rg.ones}
+			binary.BigEndian.PutUint32(k.ip[:], rg.first())
+			if !seen[k] {
+				seen[k] = true
+				return rg
+			}
+		}
+	}
+	look := func(rg rangeT) {
+		a := rg.first()
+		if r.Bool() {
+			a = rg.last()
+		}
+		b := u32b(a)
+		if r.Chance(25) {
+			b = append([]byte{}, net.IP(b).To16()...)
+		}
+		h.probe(b)
+	}
+	cycles := 2 + r.Intn(2)
+	for c := 0; c < cycles; c++ {
+		// up
+		target := []int{257, 258, 260 + r.Intn(60), 256}[r.Intn(4)]
+		for len(live) < target {
+			rg := fresh()
+			h.add(rg)
+			live = append(live, rg)
+			if len(live) >= 255 && len(live) <= 258 {
+				look(rg)
+				if len(removed) > 0 {
+					look(removed[r.Intn(len(removed))])
+				}
+			}
+		}
+		for i := 0; i < 8; i++ {
+			look(live[r.Intn(len(live))])
+		}
+		for i := 0; i < 12 && len(removed) > 0; i++ {
+			look(removed[r.Intn(len(removed))])
+		}
+		// down
+		floor := []int{129, 128, 127, 100, 3, 0}[r.Intn(6)]
+		for len(live) > floor {
+			i := r.Intn(len(live))
+			rg := live[i]
+			live[i] = live[len(live)-1]
+			live = live[:len(live)-1]
+			h.remove(rg)
+			removed = append(removed, rg)
+			if len(live) >= 126 && len(live) <= 130 {
+				look(rg)
+				if len(live) > 0 {
+					look(live[r.Intn(len(live))])
+				}
+			}
+		}
+		// further removals in the "small" era: of ranges still present and of long-gone ones
+		for i := 0; i < 1+r.Intn(6) && len(live) > 0; i++ {
+			j := r.Intn(len(live))
+			rg := live[j]
+			live[j] = live[len(live)-1]
+			live = live[:len(live)-1]
+			h.remove(rg)
+			removed = append(removed, rg)
+			look(rg)
+		}
+		if len(removed) > 0 && r.Bool() {
+			h.remove(removed[r.Intn(len(removed))])
+		}
+	}
+	// up once more with other ranges, across 256 / 257
+	for len(live) < 258+r.Intn(10) {
+		rg := fresh()
+		h.add(rg)
+		live = append(live, rg)
+	}
+	// everything ever removed, and a sample of what is there
+	for _, rg := range removed {
+		look(rg)
+	}
+	for i := 0; i < 40; i++ {
+		look(live[r.Intn(len(live))])
+	}
+	h.flags["up_down_up_histories"] = true
+	h.emit("up_down_up")
+}
+
 func runC11(e *hk.Env) error {
 	if e.Replay != "" {
 		return replayFile(e, e.Replay)
@@ -1107,6 +1299,16 @@ func runC11(e *hk.Env) error {
 		default:
 			small(e, r)
 		}
+	}
+	nSame, nUDU := 36, 8
+	if e.Thorough() {
+		nSame, nUDU = 288, 80
+	}
+	for v := 0; v < nSame; v++ {
+		samePrefixFill(e, e.Rng.Fork(), v)
+	}
+	for v := 0; v < nUDU; v++ {
+		upDownUp(e, e.Rng.Fork())
 	}
 	churn(e, e.Rng.Fork())
 	repeatedLookups(e)
